@@ -385,9 +385,13 @@ class Controller(object):
                 rvec_list, obj_list, num_samples_run, exit_info, eval_num = eval_obj_results[ndirns]
                 # Handle exit conditions (f < min obj value or maxfun reached)
                 if exit_info is not None:
-                    if num_samples_run > 0:
-                        self.model.save_point(x, np.mean(rvec_list[:num_samples_run, :], axis=0), num_samples_run, eval_num,
-                                              x_in_abs_coords=True)
+                    # The later points have been evaluated too (in parallel), so offer them all to the saved point
+                    for j in range(ndirns, num_directions):
+                        rvec_list, obj_list, num_samples_run, _, eval_num = eval_obj_results[j]
+                        if num_samples_run > 0:
+                            x = self.model.as_absolute_coordinates(xopt + dirns[j, :])
+                            self.model.save_point(x, np.mean(rvec_list[:num_samples_run, :], axis=0), num_samples_run, eval_num,
+                                                  x_in_abs_coords=True)
                     return exit_info  # return & quit
 
                 # Otherwise, add new results (increments model.npt_so_far)
